@@ -1,5 +1,6 @@
 (* FmtMACHO/Proofs.v — lemmas for part 1 (csblob): superblob round trip, specification readers, no-panic, Sign assembly, Verify soundness *)
-From Relic Require Import Base.Prelude Base.Enc Generated.FmtMACHO_gen FmtMACHO.Model.
+From Relic Require Import Base.Prelude Base.Enc FmtMACHO.VpLang Generated.FmtMACHO_gen FmtMACHO.Model.
+From Relic Require FmtMACHO.ProofsVP.
 
 (* ------------------------------------------------------------------ list / slice helpers *)
 Lemma ztake_app_exact {A} (a b : list A) : ztake (zlen a) (a ++ b) = a.
@@ -627,39 +628,33 @@ Section NoPanic.
     destruct (match plist with Some pl => _ | None => Ok tt end) as [u2| |q]; cbn [bind]; try discriminate.
     intros [= <-]. eapply parse_signature_dirs; eassumption.
   Qed.
-  Lemma vp_loop_no_panic : forall hashes h data remaining ps plen p, vp_loop H hashes h data remaining ps plen <> Panic p.
-  Proof.
-    induction hashes as [|e r IH]; intros h data remaining ps plen p; cbn [vp_loop]; [discriminate|].
-    destruct (vp_exhausted _); [discriminate|]. destruct (_ <? _); [discriminate|]. destruct (bytes_eqb _ _); [apply IH|discriminate].
-  Qed.
   Lemma best_dir_in : forall dirs cur d, best_dir dirs cur = Some d -> In d dirs \/ cur = Some d.
   Proof.
     induction dirs as [|d2 r IH]; intros cur d; cbn [best_dir]; [intros ->; right; reflexivity|].
     intros Hb. apply IH in Hb as [Hi|Hc]; [left; right; exact Hi|]. destruct (vfy_better_dir _ _ _); [injection Hc as ->; left; left; reflexivity|right; exact Hc].
   Qed.
-  Lemma go_page_size_small log2 : 0 <= log2 <= 20 -> go_page_size log2 = 2 ^ log2 /\ 1 <= 2 ^ log2 <= 1048576.
+  (* VerifyPages is the generated program vp_prog; ProofsVP.vp_no_panic: no reslice or allocation of it is out of range for ANY page size byte,
+     any 64 bit code size (negative values and MinInt64 included), any number of slots, any reader content.  Since relic commit 83978b2 the page
+     size field is bounded before the page buffer is allocated *)
+  Lemma vp_input_log2 s lim : dirs_ok s -> 0 <= i_log2 (vp_input s lim).
   Proof.
-    intros Hl. assert (Hp : 1 <= 2 ^ log2 <= 1048576).
-    { split; [apply (Z.pow_le_mono_r 2 0 log2); lia|change 1048576 with (2 ^ 20); apply Z.pow_le_mono_r; lia]. }
-    split; [|exact Hp]. unfold go_page_size, vp_page_size, mm_s64. rewrite Z.shiftl_1_l. rewrite Z.mod_small by lia. lia.
+    intros Hd. unfold vp_input. destruct (best_dir (sg_dirs s) None) as [d|] eqn:Eb; cbn [i_log2]; [|lia].
+    apply best_dir_in in Eb as [Hi|Hc]; [|discriminate]. unfold dirs_ok in Hd. rewrite Forall_forall in Hd. apply Hd. exact Hi.
   Qed.
-  (* since relic commit 83978b2 the page size field is bounded before the page buffer is allocated *)
+  Lemma vp_input_limit s lim : i_alloc_limit (vp_input s lim) = lim.
+  Proof. unfold vp_input. destruct (best_dir _ _); reflexivity. Qed.
+  Theorem verify_pages_rd_no_panic s n rd p : dirs_ok s -> 0 <= n -> verify_pages_rd H s n rd <> Panic p.
+  Proof.
+    intros Hd Hn. unfold verify_pages_rd. apply FmtMACHO.ProofsVP.vp_no_panic; [apply vp_input_log2; exact Hd|].
+    rewrite vp_input_limit. unfold alloc_limit. lia.
+  Qed.
   Theorem verify_pages_no_panic s file p : dirs_ok s -> verify_pages H s file <> Panic p.
-  Proof.
-    intros Hd. unfold verify_pages. destruct (best_dir (sg_dirs s) None) as [d|] eqn:Eb; [|discriminate].
-    apply best_dir_in in Eb as [Hi|Hc]; [|discriminate].
-    assert (Hps : 0 <= h_pagesize (d_hdr d)) by (unfold dirs_ok in Hd; rewrite Forall_forall in Hd; apply Hd; exact Hi).
-    destruct (vp_single_page _). { destruct (vp_single_count_bad _); [discriminate|]. destruct (vp_single_size_bad _ _); [discriminate|]. destruct (bytes_eqb _ _); discriminate. }
-    unfold vp_page_too_large. destruct (h_pagesize (d_hdr d) >? cs_max_page_log2) eqn:E; [discriminate|].
-    assert (Hl : 0 <= h_pagesize (d_hdr d) <= 20) by (change cs_max_page_log2 with 20 in E; lia).
-    destruct (go_page_size_small _ Hl) as [Hg Hr]. rewrite Hg.
-    assert (Ha : alloc (zlen file) (2 ^ h_pagesize (d_hdr d)) = Ok tt).
-    { unfold alloc, alloc_limit. pose proof (zlen_nonneg file). replace (2 ^ h_pagesize (d_hdr d) <? 0) with false by lia.
-      replace (64 * zlen file + 1048576 <? 2 ^ h_pagesize (d_hdr d)) with false by lia. reflexivity. }
-    rewrite Ha. cbn [bind]. apply vp_loop_no_panic.
-  Qed.
+  Proof. intros Hd. unfold verify_pages. apply verify_pages_rd_no_panic; [exact Hd|apply zlen_nonneg]. Qed.
 End NoPanic.
 
 Theorem verify_then_pages_no_panic H cms_verify blob vp s file p : all_bytes blob = true ->
   cs_verify H cms_verify blob vp = Ok s -> verify_pages H s file <> Panic p.
 Proof. intros Hb Hv. apply (verify_pages_no_panic H cms_verify s file p). exact (cs_verify_dirs H cms_verify blob vp s Hb Hv). Qed.
+Theorem verify_then_pages_rd_no_panic H cms_verify blob vp s n rd p : all_bytes blob = true -> 0 <= n ->
+  cs_verify H cms_verify blob vp = Ok s -> verify_pages_rd H s n rd <> Panic p.
+Proof. intros Hb Hn Hv. apply (verify_pages_rd_no_panic H cms_verify s n rd p); [exact (cs_verify_dirs H cms_verify blob vp s Hb Hv)|exact Hn]. Qed.
